@@ -72,9 +72,17 @@ def gen(seed, idx):
 
 
 def execute(case, workdir, tag, layout, threads, sched):
-    ref, files, out = cvcase.materialise(case, layout, workdir, tag)
+    try:
+        ref, files, out = cvcase.materialise(case, layout, workdir, tag)
+    except cvcase.LayoutFailure as e:
+        run = cvrun.Run()
+        run.exc = (f'LayoutFailure:{e.stage}:{e.exc_name}', str(e))
+        run.index_note = None
+        return run
     cfg = dict(case['config'], threads=threads)
-    return cvrun.run_callvariant(ref, files, out, cfg, sched)
+    run = cvrun.run_callvariant(ref, files, out, cfg, sched)
+    run.index_note = ref.get('index_note')
+    return run
 
 
 def seqset(run):
@@ -92,10 +100,16 @@ def signature(case, p, run):
 
 def compare(ref_run, run, layout=None):
     """Returns None if equal else a detail dict."""
-    if layout is not None and layout.get('index_dir') == 'foreign':
-        # the directory holds no pool for the run's parameters: it must be refused, never used
+    if getattr(run, 'wall_capped', False):
+        return None                  # execution over the harness wall budget: discarded, never judged
+    if layout is not None and (layout.get('index_dir') == 'foreign'
+                               or getattr(run, 'index_note', None) == 'update-failed'):
+        # the directory holds no pool for the run's parameters.  Refusing it is the documented behaviour (C12);
+        # for C06 the only demand is that a run that does complete writes the same peptide set as the raw files
         if run.ok:
             a, b = set(ref_run.fasta), set(run.fasta)
+            if a == b:
+                return None
             return {'foreign_index_used': True, 'n_ref': len(a), 'n_pert': len(b), 'lost': sorted(a - b)[:5],
                     'gained': sorted(b - a)[:5], 'n_lost': len(a - b), 'n_gained': len(b - a)}
         return None
